@@ -17,11 +17,12 @@ ALPHABET = [
     "no=files", "no=tutorial3",
     "only_vm1=CentOS", "only_vm1=Fedora", "only_vm1=Linux", "only_vm1=", "no_vm2=Win7", "only_vm2=Windows",
     "vms=vm1", "vms=vm1,vm2", "nets=net1,net2", "only_nets=net1", "no_nets=net0", "file_contents=x,y", "dry_run=yes",
+    "default_only_vm1=Fedora", "default_only=leaves", "default_only_vm2=Win7",
     "foo", "=x", "vms=vm9", "only_vm4=X", "only_vm1x=CentOS", "only_netsx=net1",
 ]
 QUICK_ALPHABET = ["only=tutorial1", "only=normal", "only=tutorial2..names", "only=names,files", "no=files",
                   "only_vm1=CentOS", "only_vm1=Linux", "only_vm1=", "no_vm2=Win7", "vms=vm1", "nets=net1,net2", "only_nets=net1", "file_contents=x,y",
-                  "foo", "vms=vm9", "only_vm4=X", "only_vm1x=CentOS"]
+                  "default_only_vm1=Fedora", "default_only=leaves", "foo", "vms=vm9", "only_vm4=X", "only_vm1x=CentOS"]
 
 
 def match_restriction(name: str, restr: str) -> bool:
@@ -91,14 +92,18 @@ class Reference:
         if nets_explicit and nets_restricted:
             return ("error", "conflicting nets")
         if not primary_given:
-            tests_lines.append(f"only {self.default_only}\n")
+            default_only = param_dict.get("default_only", self.default_only)
+            if default_only not in self.mains:
+                return ("error", "invalid default set")
+            tests_lines.append(f"only {default_only}\n")
         vm_strs = {}
         for vm in self.vms:
             if vm not in selected:
                 continue
             s = "".join(vm_lines[vm])
-            if vm not in vm_touched and self.default_vm_only.get(vm):
-                s += f"only {self.default_vm_only[vm]}\n"
+            default_vm = param_dict.get(f"default_only_{vm}", self.default_vm_only.get(vm))
+            if vm not in vm_touched and default_vm:
+                s += f"only {default_vm}\n"
             vm_strs[vm] = s
         return ("ok", {"tests_lines": tests_lines, "vm_strs": vm_strs, "param_dict": param_dict, "nets_restricted": nets_restricted})
 
@@ -220,6 +225,11 @@ def run(tier: str, seed: int) -> int:
             exp_v = sorted(n for n in vm_universe[vm] if all(match_restriction(n, l.split(" ", 1)[1].strip()) == l.startswith("only ") for l in vm_str.splitlines() if l))
             if got_v != exp_v:
                 rep.violation(f"{list(args)}: {vm} restricted to {got_v}, the documented operators give {exp_v}", inp, {"kind": "vm-selection"})
+        for k, v in e["param_dict"].items():
+            if k != "nets" and cfg["vms_params"].get(k) != v:
+                rep.violation(f"{list(args)}: {k}={v!r} does not override the vm parameters ({cfg['vms_params'].get(k)!r})", inp, {"kind": "override-vms"})
+            if k != "nets" and cfg["tests_params"].get(k) != v:
+                rep.violation(f"{list(args)}: {k}={v!r} does not override the test parameters ({cfg['tests_params'].get(k)!r})", inp, {"kind": "override-tests"})
         # (iii) overrides visible in every parsed test
         for k, v in e["param_dict"].items():
             if k == "nets":
